@@ -251,13 +251,13 @@ Fixpoint get_entry (s:st) (cur:eref) (path:list namerec) : res eref :=
     end
   end.
 Definition lookup (s:st) (path:list namerec) : res eref := get_entry s ERoot path.
-(** [_get_dir_entry]: ENOENT becomes ResourceNotFound, everything else stays raw *)
+(** [_get_dir_entry]: ENOENT / ENOTDIR become ResourceNotFound, everything else stays raw *)
 Definition get_dir_entry (s:st) (path:list namerec) : res eref :=
-  match lookup s path with Err ENOENT => Err RNF | r => r end.
+  match lookup s path with Err ENOENT => Err RNF | Err ENOTDIR => Err RNF | r => r end.
 
 (** * Read-only operations *)
 Definition op_exists (s:st) (path:list namerec) : res bool :=
-  match lookup s path with Ok _ => Ok true | Err ENOENT => Ok false | Err e => Err e end.
+  match lookup s path with Ok _ => Ok true | Err ENOENT => Ok false | Err ENOTDIR => Ok false | Err e => Err e end.
 Record info := mkInfo { i_name : shown; i_dir : bool; i_size : Z; i_crtdate : Z; i_crttime : Z;
                         i_wrtdate : Z; i_wrttime : Z; i_accdate : Z }.
 Definition info_of (r:eref) : info :=
@@ -271,7 +271,7 @@ Definition op_getinfo (s:st) (path:list namerec) : res info :=
   | Err ENOENT => Err RNF | Err ENOTDIR => Err RNF | Err e => Err e
   end.
 Definition op_getsize (s:st) (path:list namerec) : res Z :=
-  match lookup s path with Ok r => Ok (i_size (info_of r)) | Err ENOENT => Err RNF | Err e => Err e end.
+  match lookup s path with Ok r => Ok (i_size (info_of r)) | Err ENOENT => Err RNF | Err ENOTDIR => Err RNF | Err e => Err e end.
 Definition op_listdir (s:st) (path:list namerec) : res (list shown) :=
   do r <- get_dir_entry s path;
   if negb (eref_is_dir r) then Err DEXP else
@@ -296,7 +296,7 @@ Definition new_names (s:st) (n:namerec) (es:list dirent) : res (list Z * option 
   (* _sfn != dirname.upper() or (_sfn != dirname and preserve_case) *)
   if negb (opt_eqb (n_oem_up n) disp) || (negb (opt_eqb (n_oem n) disp) && s_pc s) then
     if n_conform n then Err EINVAL
-    else if 255 <? 2 * lenZ (n_u n) then Err ENAMETOOLONG
+    else if 255 <? lenZ (n_u n) then Err ENAMETOOLONG
     else Ok (sfn, Some (make_lfn (n_u n) sfn))
   else Ok (sfn, None).
 
